@@ -72,7 +72,14 @@ PROPS: Dict[str, Dict[str, Any]] = {
                          "mapStep_prov", "recordStep_prov", "unionStep_prov", "maybeStep_prov", "ItemsRun.sound",
                          "recLoop_to_run", "C05_union_invalid_inv"], "stream": "core", "opts": {"salt": "c14", "async_rate": 0.1},
             "quick_n": 10000, "thorough_n": 300000, "fields": ["out"]},
-    "C17": {"theorems": [], "stream": "core", "opts": {"salt": "c17", "async_rate": 0.1, "user_rate": 0.1},
+    "C17": {"theorems": ["C17_scalar_fixed", "GateFix_none", "GateFix_default", "ProcsFix_nil", "ProcsFix_builtin",
+                         "stripWith_idem", "loopItems_fixed", "C17_list_fixed", "C17_utuple_fixed", "C17_none",
+                         "C17_isDict"],
+            "level_note": "proved: scalars (any coercer / processors under GateFix / ProcsFix, both discharged for the cases "
+                          "the property names), lists and uniform tuples given that the container predicates hold of the "
+                          "payload (the hypothesis of open finding D22) and the elements are fixed points; unions, "
+                          "n-tuples, sets, maps and records are decided by correspondence + oracle only",
+            "stream": "core", "opts": {"salt": "c17", "async_rate": 0.1, "user_rate": 0.1},
             "quick_n": 8000, "thorough_n": 100000, "fields": ["out"]},
 }
 
